@@ -167,6 +167,7 @@ def _sf(f):
     return set(f["input"].get("step_flags", []))
 
 
+# F-C09-1 is fixed (de76dec): classifier and witness kept for reference only, never consulted while the entry is not open
 core.KNOWN_CLASSIFIERS["F-C09-1"] = lambda f: (
     f["kind"] == "reopen-differs" and f["input"].get("source") != "new" and f["input"].get("depth") in (16, 32)
     and f["input"].get("reopened_equals_tree_before_edit") is True)
@@ -214,7 +215,7 @@ def _lw(case, kinds):
 
 core.KNOWN_WITNESS["F-C09-1"] = lambda: _pw({"source": _fixture("4x4_16bit_rgb.psd"), "edit": "delete-first"}, ("reopen-differs",))()
 core.KNOWN_WITNESS["F-C09-2"] = _lw((4, [("Remove", 2, 3), ("GroupLayers", [3], None)]), ("structure-differs",))
-core.KNOWN_WITNESS["F-C09-3"] = _lw((2, [("MoveToGroup", 5, 0), ("GroupLayers", [4], 5)]), ("outcome-differs",))
+core.KNOWN_WITNESS["F-C09-3"] = _lw((2, [("SetClip", 3, True), ("GroupLayers", [1], 3)]), ("outcome-differs",))
 core.KNOWN_WITNESS["F-C09-4"] = _lw((4, [("GroupLayers", [2], 2)]), ("outcome-differs", "structure-differs"))
 core.KNOWN_WITNESS["F-C09-7"] = _lw((0, [("Extend", 5, [1]), ("Clear", 5), ("MoveToGroup", 1, 0)]), ("structure-differs",))
 core.KNOWN_WITNESS["F-C09-5"] = _pw({"source": "new", "mode": "RGB", "depth": 16, "scene": 4, "history": []}, ("save-raises", "layer-unreadable"))
